@@ -156,7 +156,10 @@ def _worker(args):
                         r.one(cls, qn, 'immutable', data, tag)
                         acc.count('inputs')
     except core.Timeout:
-        acc.violation('Timeout@' + qn, 'work item did not finish in 600 s', {'cls': qn, 'kind': kind, 'idx': idx})
+        # the item-level watchdog is a budget of this harness, not a clause of the property (run time is C19's
+        # subject): the item is reported as cut, the run as capped
+        acc.count('work_items_cut_by_watchdog')
+        acc.sample({'cut_by_watchdog': qn, 'kind': kind, 'idx': idx, 'seconds': 600}, 3)
     acc.count('outcomes_' + qn, 0)
     acc.counters['distinct_outcomes_max'] = max(acc.counters.get('distinct_outcomes_max', 0), len(r.outcomes))
     for o in r.outcomes:
@@ -239,6 +242,9 @@ def run(ctx):
     ctx.notes['work_items'] = len(items)
     ctx.notes['classes'] = len(classes.parse_entry_classes())
     ctx.pmap(_worker, items)
+    if ctx.counters.get('work_items_cut_by_watchdog'):
+        ctx.cap('%d work items cut by the 600 s per-item watchdog (their remaining inputs were not run)'
+                % ctx.counters['work_items_cut_by_watchdog'])
     ctx.assumptions += [
         'documented parse errors = InvalidDataLength family (NotEnoughData, TooMuchData), '
         'cryptodatahub InvalidValue, InvalidType',
